@@ -121,6 +121,12 @@ def run(ctx):
         hists.append([["read:AmplitudeChain", cart[0]], ["read:GooFitChain", plain[0]], ["cpp", plain[0]], ["py", plain[0]]])
         hists.append([["cpp", cart[0]], ["py", plain[0]], ["read:GooFitPyChain", plain[0]]])
     hists.append([["cpp", pool[0]], ["cpp", pool[2 % len(pool)]], ["cpp", pool[0]], ["py", pool[0]]])
+    # files sharing a spline resonance with file-specific constants, converted one after the other by the same converter
+    spl = [p for p in pool if "GSpline" in open(p).read()]
+    import itertools as _it
+    for a, b in list(_it.permutations(spl, 2))[: (4 if tier == "quick" else 12)]:
+        hists.append([["py", a], ["py", b]])
+        hists.append([["cpp", a], ["cpp", b], ["py", b]])
     hists.append([["read:GooFitChain", pool[0]], ["read:GooFitPyChain", pool[2 % len(pool)]], ["py", pool[2 % len(pool)]]])
     with ThreadPoolExecutor(max_workers=12) as ex:
         outs = list(ex.map(worker, hists))
